@@ -69,14 +69,23 @@ def check(run: Run) -> None:
                   "struct main { union { uint16 a[]; uint8 b; uint32 c; } u; uint8 t; };", "union main { uint8 n; uint16 w[n & 3]; uint8 z[2]; };",
                   "struct main { uint8 n; union { uint8 v[n]; uint16 w; } u; union { char q[]; } r; };"]
     total = 1200 if thorough else 260
-    for i in range(total + 6 * len(DYN_UNIONS)):
-        if i >= total:
+    # mixed alignment modes (helper type in one mode, `main` in the other), each at two start offsets
+    mixed = [c for c in F.mixed_mode_cases(rng) for _ in range(2)]
+    pending_mixed = []
+    for i in range(total + 6 * len(DYN_UNIONS) + len(mixed)):
+        if i >= total + 6 * len(DYN_UNIONS):
+            import copy
+            c = copy.copy(mixed[i - total - 6 * len(DYN_UNIONS)])
+        elif i >= total:
             from ..structcorr import Case
             c = Case(DYN_UNIONS[(i - total) % len(DYN_UNIONS)], compiled=(i % 2 == 0), endian=rng.choice("<>"))
         else:
             c = F.gen_case(rng, depth=2, unions=(i % 3 == 0), dyn_unions=(i % 6 == 0), max_fields=5, eof=(i % 7 == 0))
         body = F.random_data(rng, rng.choice([8, 16, 30, 48]))
-        p = rng.choice([16, 32, 48]) if c.align else rng.choice([1, 2, 3, 5, 8, 13, 16])
+        if getattr(c, "_mixed", False):
+            body = rng.choice(c._datas)
+        main_aligned = c.history[-1][2] if getattr(c, "_mixed", False) else c.align
+        p = rng.choice([16, 32, 48]) if main_aligned or (getattr(c, "_mixed", False) and rng.random() < 0.5) else rng.choice([1, 2, 3, 5, 8, 13, 16])
         pre = rng.randbytes(p)
         data = pre + body
         c.ops = [("parse", data, p), ("parse", body, 0)]
@@ -121,8 +130,30 @@ def check(run: Run) -> None:
                 "cs.read(name, bytes)": lambda: cs.read("main", body), "cs.read(name, BytesIO)": lambda: cs.read("main", io.BytesIO(body)),
                 "cs.read(name, memoryview slice)": lambda: cs.read("main", memoryview(data)[p:]),
             }
+            import mmap
+
+            def with_mmap(call):
+                mm = mmap.mmap(-1, max(len(data), 1))
+                try:
+                    mm.write(data)
+                    mm.seek(p)
+                    v = call(mm)
+                    if mm.tell() != used and "[EOF]" not in c.text:
+                        raise AssertionError(f"mmap left at {mm.tell()}, expected {used}")
+                    return v
+                finally:
+                    try:
+                        mm.close()
+                    except BufferError:
+                        pass
+
+            if len(data):
+                forms.update({"T(mmap at p)": lambda: with_mmap(lambda mm: T(mm)), "T.read(mmap at p)": lambda: with_mmap(lambda mm: T.read(mm)),
+                              "cs.read(name, mmap at p)": lambda: with_mmap(lambda mm: cs.read("main", mm))})
             for name, f in forms.items():
                 r = attempt(f)
+                if "mmap" in name and r == ("err", "ValueError"):
+                    continue     # an mmap refuses to seek past its end (the tail alignment of an aligned structure at the end of the input): the stream's own limit
                 kr = ("ok", key(T, r[1])) if r[0] == "ok" else r
                 if kr[:2] != want[:2]:
                     probs.append({"what": name, "observed": repr(kr)[:300], "expected": repr(want[:2])[:300]})
@@ -145,6 +176,11 @@ def check(run: Run) -> None:
             for it in its:
                 explained.add(id(it))
             sig = "C09/" + probs[0]["what"].split(" ")[0]
+            if F.is_mixed(c) and F.misaligned_embedded(T) and all(pr["what"].startswith(("parse at p", "recorded sizes", "changing", "second read", "stream position", "T(mmap", "T.read(mmap", "cs.read(name, mmap")) for pr in probs):
+                # recorded finding (see C01): the tail padding of an aligned structure follows the ABSOLUTE stream position, so a packed structure that
+                # embeds one at an unaligned offset parses differently at different start offsets.  Only when the readers do what the model does.
+                pending_mixed.append((its, {**c.describe(), "ops": [{"op": "parse", "data": data.hex(), "p": p, "problems": probs[:4]}]}))
+                continue
             if has_dynamic_union(T) and all(pr["what"].startswith(("changing", "second read", "stream position")) for pr in probs):
                 sig = "C09/dynamic-union-extent"
             run.report(sig, {**c.describe(), "ops": [{"op": "parse", "data": data.hex(), "p": p, "problems": probs[:4]}]})
@@ -172,6 +208,9 @@ def check(run: Run) -> None:
                                "ops": [{"op": "parse at p", "p": p0, "string_length": ln, "observed": repr(got)[-120:], "expected": repr(want)[-120:]}]})
 
     mism = run_items(run, items)
+    bad_ids = {id(m) for m in mism}
+    for its_, rep in pending_mixed:
+        run.report("C09/parse" if any(id(x) in bad_ids for x in its_) else "C09/aligned-structure-at-unaligned-offset-in-packed-structure", rep)
     report_unexplained(run, mism, explained, "corr_offsets (Model.Reader.read_top at position p vs the implementation)")
     F.obligation_fallback(run, ok, bool(failures or mism))
     F.finish_cov(run, items, mism,
